@@ -217,6 +217,44 @@ func (c c12) Case(w *core.WCtx, payload json.RawMessage) core.Result {
 						}
 					}
 				})
+				// the same with records skipped in between (skip-then-read and read-then-skip): what ReadNext returns must
+				// still be exactly the record at that position, and never one that is not completely contained
+				for _, pat := range []string{"SR", "RS"} {
+					guard(nc, "sequential reader with skips on cut file", func() {
+						r.Evals++
+						rd, err := openSeq(dmg, rb)
+						if err != nil {
+							return
+						}
+						defer rd.Close()
+						for i := 0; i <= n; i++ {
+							if pat[i%2] == 'S' {
+								if err := rd.SkipNext(); err != nil {
+									if i < surviving {
+										viol("", nc, "cut at %d of %d (rbuf %d, pattern %s): record %d is complete but SkipNext failed: %v", cut, len(data), rb, pat, i, err)
+									}
+									return
+								}
+								continue
+							}
+							got, err := rd.ReadNext()
+							if err != nil {
+								if i < surviving {
+									viol("", nc, "cut at %d of %d (rbuf %d, pattern %s): record %d is complete but ReadNext failed: %v", cut, len(data), rb, pat, i, err)
+								}
+								return
+							}
+							if i >= surviving {
+								viol("", nc, "cut at %d of %d (rbuf %d, pattern %s): ReadNext at position %d returned %s although only %d records are complete", cut, len(data), rb, pat, i, recStr(got), surviving)
+								return
+							}
+							if !recEq(got, m.Recs[i]) {
+								viol("", nc, "cut at %d of %d (rbuf %d, pattern %s): ReadNext at position %d = %s want %s", cut, len(data), rb, pat, i, recStr(got), recStr(m.Recs[i]))
+								return
+							}
+						}
+					})
+				}
 			}
 			guard(nc, "mmap reader on cut file", func() {
 				if cut == 0 {
